@@ -24,6 +24,7 @@ GOENV = dict(os.environ, GOFLAGS="-mod=mod", GOPROXY="off", GOSUMDB="off", GOTOO
 FORBIDDEN = re.compile(r"\b(Admitted|admit|Axiom|Axioms|Parameter|Parameters|Conjecture|Conjectures|"
                        r"Admit Obligations|bypass_check|native_compute)\b|Unset Guard|Unset Positivity|"
                        r"Unset Universe|type-in-type|impredicative-set")
+EXTRA = {}
 ALLOWED_AXIOMS = set()  # none needed so far; any axiom printed by Print Assumptions fails the gate
 
 
@@ -170,11 +171,16 @@ K_RE = re.compile(r"KL\s*=\s*(.*?)\s*:\s*list N", re.S)
 
 def eval_shard(path):
     d = os.path.dirname(path)
-    rc, out = run(["timeout", "900", "coqc"] + coq_args() + ["-o", path[:-2] + ".vo", path], cwd=COQ)
-    m = R_RE.search(out)
-    k = K_RE.search(out)
+    for attempt in (1, 2):   # a shard killed by the time limit under heavy machine load is retried once
+        rc, out = run(["timeout", "1800", "coqc"] + coq_args() + ["-o", path[:-2] + ".vo", path], cwd=COQ)
+        m = R_RE.search(out)
+        k = K_RE.search(out)
+        if rc == 0 and m and k:
+            break
+        if "Error" in out:
+            break
     if rc != 0 or not m or not k:
-        return None, None, out
+        return None, None, "exit %d\n%s" % (rc, out)
     pairs = [(int(a), int(b)) for a, b in re.findall(r"\((\d+)(?:%nat)?\s*,\s*(\d+)(?:%N)?\)", m.group(1))]
     classes = [int(x) for x in re.findall(r"\d+", k.group(1))]
     return pairs, classes, out
@@ -305,6 +311,18 @@ def check(pid, prop, tier, seed, n, scratch, t0, only_index):
             if rc != 0 or extra:
                 broken.append("Print Assumptions: %d of %d theorems closed; axioms: %s" % (closed, n_thm, extra[:5]))
     obligations = count_obligations(cone(props_v))
+    coqchk_txt = ""
+    if tier == "thorough" and proofs_ok:
+        # independent re-check of the compiled theorem file and everything it depends on
+        with Lock(os.path.join(COQ, ".lock")):
+            rc, out = run(["timeout", "2400", "coqchk", "-silent", "-o"] + coq_args()[:15] + ["V." + pid], cwd=COQ)
+        coqchk_txt = out[-1500:]
+        m = re.search(r"\* Axioms:\s*(.*?)\n\s*\n", out, re.S)
+        ax = m.group(1).strip() if m else "?"
+        if rc != 0 or ax != "<none>":
+            broken.append("coqchk: exit %d, axioms: %s" % (rc, ax[:300]))
+        notes.append("coqchk: " + coqchk_txt)
+        EXTRA["coqchk"] = "exit %d; axioms: %s" % (rc, ax)
 
     # 4. driver
     ok, out, binp = build_driver(prop, scratch)
@@ -325,6 +343,10 @@ def check(pid, prop, tier, seed, n, scratch, t0, only_index):
         elif os.path.exists(os.path.join(COQ, "corr", prop["corr"] + ".vo")):
             pairs, classes, err = evaluate(outdir)
             if pairs is None:
+                if "Error" not in err:
+                    # coqc was killed (time limit / memory) — trouble in the harness's own infrastructure, not an observation
+                    print("HARNESS-ERROR property=%s: coqc could not evaluate a shard (killed?): %s" % (pid, err[:300]))
+                    return 2
                 broken.append("coqc could not evaluate the shards")
                 notes.append(err)
                 pairs, classes = [], []
@@ -452,6 +474,7 @@ def finish(pid, prop, tier, seed, t0, obligations, discharged, total_eval, class
             "traces_validated_against_impl": total_eval,
             "broken_obligations": broken,
             "known_findings_reproduced": {kf[c]["id"]: len(v) for c, v in known_hits.items()},
+            "extra": EXTRA,
         },
         "assumptions": prop.get("assumptions", []),
         "wall_s": round(time.time() - t0, 2),
